@@ -37,7 +37,7 @@ RULE = (
 )
 ASSUMPTIONS = [
     "need(n) per transformation is committed data (data/c14_catalogue.json): measured on the pinned tree "
-    "as a linear function, fixed, slack 2 added once per composition; compositions are bounded by the "
+    "as a linear function, fixed, slack 8 added once per composition; compositions are bounded by the "
     "composed needs",
     "data-dependent transformations (filter, uniquify, group, run-length, truthy indices) are only used as "
     "the first stage, on a source whose values are known, because their need depends on the values",
